@@ -291,11 +291,19 @@ def show_conds(conds, limit=3):
     return [("%s is %s" % (str(c)[:140], d)) for c, d in conds[:limit]] + (["... (%d more)" % (len(conds) - limit)] if len(conds) > limit else [])
 
 
+class ClaimRuns(list):
+    truncated = False
+
+
 def explore_claim(body, max_paths=24):
-    """[(conds, result)] for every path of body(); body() must build its own symbolic world"""
-    out = []
-    for path, res in explore(body, max_paths=max_paths):
+    """[(conds, result)] for every path of body(); body() must build its own symbolic world.  When the code branches on more
+    data than the path budget covers, the paths explored are returned with `truncated` set: they are judged, and the claim
+    gets an undecided `paths_exhausted` obligation for the rest (never a pass, never a crash)."""
+    out = ClaimRuns()
+    runs = explore(body, max_paths=max_paths, on_budget="stop")
+    for path, res in runs:
         out.append((list(path.conds), res))
+    out.truncated = bool(getattr(runs, "truncated", False))
     return out
 
 
